@@ -104,6 +104,12 @@ fn err_kind(e: &scnr::ScnrError) -> String {
     }
 }
 
+/// Uncached build for workload generation and for the sequential specification. A build that
+/// panics (C07's business) makes the configuration unusable here instead of killing the harness.
+fn try_uncached(c: &Config) -> Option<std::result::Result<Scanner, scnr::ScnrError>> {
+    std::panic::catch_unwind(std::panic::AssertUnwindSafe(|| ScannerBuilder::new().add_scanner_modes(&to_modes(c)).build_uncached())).ok()
+}
+
 fn gen_workload(seed: u64, idx: u64) -> Workload {
     let mut rng = Rng::for_run(seed, 0xC14, idx);
     let k = gen::Knobs {
@@ -118,10 +124,22 @@ fn gen_workload(seed: u64, idx: u64) -> Workload {
     let n_cfg = rng.range(1, 3);
     let mut configs: Vec<Config> = Vec::new();
     let mut gcs = Vec::new();
+    let mut attempts = 0;
     while configs.len() < n_cfg {
+        attempts += 1;
+        if attempts > 60 {
+            // nothing builds (C07/C15's business): fall back to the simplest configuration
+            let g = gen::GenConfig {
+                config: vec![ModeSpec { name: "INITIAL".into(), patterns: vec![PatternSpec { pattern: "a".into(), token_type: 0, lookahead: None }], transitions: vec![] }],
+                rx: vec![vec![gen::Rx::Lit('a')]],
+            };
+            configs.push(g.config.clone());
+            gcs.push(g);
+            continue;
+        }
         let g = gen::gen_config(&mut rng, &al, &k);
         // only configurations that build (checked sequentially, uncached)
-        if ScannerBuilder::new().add_scanner_modes(&to_modes(&g.config)).build_uncached().is_ok() {
+        if matches!(try_uncached(&g.config), Some(Ok(_))) && matches!(try_uncached(&gen::make_simple(&g.config)), Some(_)) {
             configs.push(g.config.clone());
             gcs.push(g);
         }
@@ -130,7 +148,7 @@ fn gen_workload(seed: u64, idx: u64) -> Workload {
     if rng.chance(1, 2) {
         let kind = *rng.pick(gen::VARIANT_KINDS);
         if let Some(v) = gen::near_variant(&mut rng, &configs[0], kind, &al) {
-            if ScannerBuilder::new().add_scanner_modes(&to_modes(&v)).build_uncached().is_ok() && !configs.contains(&v) {
+            if matches!(try_uncached(&v), Some(Ok(_))) && matches!(try_uncached(&gen::make_simple(&v)), Some(_)) && !configs.contains(&v) {
                 configs.push(v);
             }
         }
@@ -139,7 +157,7 @@ fn gen_workload(seed: u64, idx: u64) -> Workload {
     for _ in 0..rng.range(1, 2) {
         let kind = *rng.pick(gen::FAIL_KINDS);
         if let Some(f) = gen::failing_variant(&mut rng, rng_pick_cfg(&configs, idx), kind) {
-            if ScannerBuilder::new().add_scanner_modes(&to_modes(&f)).build_uncached().is_err() {
+            if matches!(try_uncached(&f), Some(Err(_))) {
                 failing.push(f);
             }
         }
